@@ -11,6 +11,7 @@ CONSTANTS
   InitRems = {0}
   NTerms = 3
   ChainPeriods = {2}
+  ChainTermInts = {4}
   Starts = {1, 2}
   NodeAts = {"genesis", "tip"}
   KeepHist = FALSE
